@@ -1,0 +1,32 @@
+//go:build verif
+
+package common
+
+// Contracts for gvc (see /verif/DESIGN.md). Comment-only: this file adds no code to any build.
+//
+// Assumed contracts for standard-library functions (listed as assumptions in every evidence file
+// that uses them). splitLen/splitAt are the logical view of strings.Split.
+
+//@ ufunc splitLen(s string, sep string) int
+//@ ufunc splitAt(s string, sep string, i int) string
+//@ axiom splitLenPos: (s string, sep string) splitLen(s, sep) >= 0 && implies(sep != "", splitLen(s, sep) >= 1)
+//@ axiom splitNoSep: (s string, sep string) implies(sep != "" && !strings.Contains(s, sep), splitLen(s, sep) == 1 && splitAt(s, sep, 0) == s)
+//@ axiom splitAppend: (a string, b string, sep string) implies(sep != "" && a != "" && !strings.Contains(b, sep), splitLen(a+sep+b, sep) == splitLen(a, sep)+1 && splitAt(a+sep+b, sep, splitLen(a, sep)) == b && forall(i, 0, splitLen(a, sep), splitAt(a+sep+b, sep, i) == splitAt(a, sep, i)))
+
+//@ axiom splitAppendRequired: (a string) implies(a != "", splitLen(a+",required", ",") == splitLen(a, ",")+1 && splitAt(a+",required", ",", splitLen(a, ",")) == "required" && forall(i, 0, splitLen(a, ","), splitAt(a+",required", ",", i) == splitAt(a, ",", i)))
+
+//@ extern strings.Split
+//@ ensures len(result) == splitLen(s, sep) && fresh(result)
+//@ ensures forall(i, 0, len(result), result[i] == splitAt(s, sep, i))
+
+//@ extern strings.TrimPrefix
+//@ ensures implies(strings.HasPrefix(s, prefix), result == s[len(prefix):])
+//@ ensures implies(!strings.HasPrefix(s, prefix), result == s)
+
+//@ extern strings.TrimSuffix
+//@ ensures implies(strings.HasSuffix(s, suffix), result == s[:len(s)-len(suffix)])
+//@ ensures implies(!strings.HasSuffix(s, suffix), result == s)
+
+//@ func UnwrapArrayTypeString props C06,C14
+//@ ensures !strings.HasPrefix(result, "[]") && len(result) <= len(value)
+//@ loop 0 invariant len(resultValue) <= len(value)
